@@ -16,6 +16,9 @@ type Built interface {
 	Lex(filename string, r io.Reader) ([]lexer.Token, error)
 	Lexer() lexer.Definition
 	String() string
+	// SubString calls ParserForProduction for a non-root production (when the
+	// program registered one) and returns that parser's String().
+	SubString() (string, bool, error)
 }
 
 // Handle is a registered grammar program: the IR it was emitted from and a
@@ -29,7 +32,25 @@ type Handle struct {
 // Registry holds the grammar programs compiled into this binary, in order.
 var Registry []*Handle
 
-type built[G any] struct{ p *participle.Parser[G] }
+type built[G any] struct {
+	p  *participle.Parser[G]
+	id string
+}
+
+// subs holds, per grammar id, a func(*participle.Parser[G]) (string, error).
+var subs = map[string]interface{}{}
+
+// RegSub registers the ParserForProduction probe of a grammar program.
+func RegSub[G any](id string, f func(p *participle.Parser[G]) (string, error)) { subs[id] = f }
+
+func (b built[G]) SubString() (string, bool, error) {
+	f, ok := subs[b.id].(func(p *participle.Parser[G]) (string, error))
+	if !ok {
+		return "", false, nil
+	}
+	s, err := f(b.p)
+	return s, true, err
+}
 
 func (b built[G]) ParseString(f, s string, o ...participle.ParseOption) (interface{}, error) {
 	v, err := b.p.ParseString(f, s, o...)
@@ -63,7 +84,7 @@ func Reg[G any](id, ir string, extra func() []participle.Option) {
 		if err != nil {
 			return nil, err
 		}
-		return built[G]{p}, nil
+		return built[G]{p, id}, nil
 	}})
 }
 
@@ -92,5 +113,8 @@ var Examples []*Example
 
 // RegParser registers an example grammar's package-level parser.
 func RegParser[G any](name string, p *participle.Parser[G], userCode bool) {
-	Examples = append(Examples, &Example{Name: name, Parser: built[G]{p}, UserCode: userCode})
+	Examples = append(Examples, &Example{Name: name, Parser: built[G]{p, ""}, UserCode: userCode})
 }
+
+// WrapParser gives a statically typed parser the type-erased Built view.
+func WrapParser[G any](p *participle.Parser[G]) Built { return built[G]{p, ""} }
